@@ -109,7 +109,7 @@ var c06Reverse = probe.Define("C06", "reverse", func(t *rapid.T) c06RevIn {
 		tried++
 	}
 	labels := append(suiteLabels(in.protIn), fmt.Sprintf("padlengths:%d", tried))
-	return probe.Outcome{NonTrivial: true, Labels: append(labels, in.Msg.Labels()...)}
+	return probe.Outcome{NonTrivial: true, Labels: append(labels, in.Msg.Labels()...), Counts: map[string]int{"reference-built-messages-accepted": tried}}
 })
 
 func TestC06(t *testing.T) {
